@@ -6,8 +6,10 @@ well-conditioned stratum, reference evaluated on the exact binary stored inputs)
 
 from __future__ import annotations
 
+import math
 import zlib
 
+import mpmath
 import numpy
 from mpmath import mpf
 
@@ -178,6 +180,16 @@ def _compare(ctx, op, cell, backend, got_kind, ref, a, b, s_in, tol, q):
             ctx.fail("dimension", f"{op.name} {variant}: result has {len(cart)} components, definition gives {len(ref)}",
                      op=op.name, variant=variant, backend=backend)
             return False
+        # a returned vector is a vector like any other: its stored angles respect the documented ranges (C13), they are not
+        # merely right modulo 2 pi
+        pi_ = mpmath.pi if backend.endswith("mp") else mpf(math.pi)
+        for nm_, x_ in zip(R.coord_names(sysr), stv):
+            if obs.finite(x_) and ((nm_ == "phi" and abs(mpf(x_)) > pi_ * (1 + mpf("1e-15"))) or
+                                   (nm_ == "theta" and not (-mpf("1e-15") <= mpf(x_) <= pi_ * (1 + mpf("1e-15"))))):
+                ctx.fail("range" + q, f"{op.name} {variant} [{backend}]: the result stores {nm_} = {opcheck.fmt(x_)}, outside "
+                         f"{'[-pi, pi]' if nm_ == 'phi' else '[0, pi]'}; a={opcheck.fmt(a)} b={opcheck.fmt(b) if b else None} scalars={s_in}",
+                         op=op.name, variant=variant, backend=backend)
+                return False
         n = op.changed if op.changed is not None else len(ref)
         if not opcheck.vec_equiv(sysr, stv, ref, tol, scale, n):
             ctx.fail("value" + q, f"{op.name} {variant} [{backend}]: result {opcheck.fmt(cart)} (stored {sysr} {opcheck.fmt(stv)}) != "
@@ -198,7 +210,6 @@ def _compare(ctx, op, cell, backend, got_kind, ref, a, b, s_in, tol, q):
         return False
     scale = R.scale_of(a, b, ref)
     if op.name == "deltaangle" and obs.finite(x):
-        import mpmath
 
         ok = opcheck.close(mpmath.cos(ref), mpmath.cos(x), tol, 1) and opcheck.close(ref, x, mpmath.sqrt(tol) * 4, 1)
     elif op.result == "angle" and obs.finite(x):
@@ -292,7 +303,6 @@ def _check_accuracy(cell, case, ctx):
     coordinates and scalar arguments estimated by finite differences of the 60-digit reference model - so an input for
     which the operation is ill-conditioned in its stored representation gets a proportionally wider tolerance, and a
     formula that loses accuracy on a well-conditioned input (cancellation) does not."""
-    import mpmath
 
     op = OPS[cell["op"]]
     da, db = cell["da"], cell["db"]
